@@ -394,56 +394,90 @@ ConcatBinding(cfg, in, h) == h.inb = cfg.input
 (*   cfg.A[c]   projected argument tuple of class c (content, not          *)
 (*              identity: representatives of a class project alike)        *)
 (*   cfg.F[c]   what f returns for class c                                 *)
-(*   in.seq     the call sequence: [c, rep]                                *)
+(*   cfg.dep[c] RE-ENTRANCY: while it runs, f(c) itself calls the          *)
+(*              memoized function once on class dep[c] (0 = it does not);  *)
+(*              dep is acyclic (recursive memoization, e.g. fib)           *)
+(*   in.seq     the top-level call sequence: [c, rep]                      *)
+(* The history of one top-level call is the flat log, in order of entry,   *)
+(* of f = 1: an invocation of f, and f = 2: a call of the memoized         *)
+(* function made from inside f (args = its arguments, res = what it        *)
+(* returned to f).  The clauses range over the whole nested history.       *)
 (* With no results there is nothing to replay: the statement then only     *)
 (* demands at most one invocation per class.                               *)
 (***************************************************************************)
 MemInit(cfg) == [seen |-> {}, steps |-> <<>>, script |-> <<>>]
 
-\* env = set of permitted next calls [c, rep]  ({} = the test stops here)
+\* the possible outcomes [calls, seen] of calling the memoized function on class c
+RECURSIVE MemEval(_, _, _)
+MemEval(cfg, c, seen) ==
+  (IF c \in seen \/ cfg.r = 0 THEN {[calls |-> <<>>, seen |-> seen]} ELSE {})        \* replay
+  \cup
+  (IF c \in seen THEN {}
+   ELSE LET d  == cfg.dep[c]                                                          \* invoke f exactly once
+            me == Call(1, cfg.A[c], cfg.F[c], 0) IN
+        IF d = 0 THEN {[calls |-> <<me>>, seen |-> seen \cup {c}]}
+        ELSE {[calls |-> <<me, Call(2, cfg.A[d], cfg.F[d], 0)>> \o n.calls, seen |-> n.seen]
+                 : n \in MemEval(cfg, d, seen \cup {c})})
+
+\* env = set of permitted next top-level calls [c, rep]  ({} = the test stops here)
 MemNext(cfg, s, env) ==
-  UNION {
-    (IF e.c \notin s.seen
-       THEN {[s EXCEPT !.seen = @ \cup {e.c}, !.script = Append(@, e),
-                       !.steps = Append(@, [calls |-> <<Call(1, cfg.A[e.c], cfg.F[e.c], 0)>>, ret |-> cfg.F[e.c]])]}
-       ELSE {})
-    \cup
-    (IF e.c \in s.seen \/ cfg.r = 0
-       THEN {[s EXCEPT !.script = Append(@, e),
-                       !.steps = Append(@, [calls |-> <<>>, ret |-> cfg.F[e.c]])]}
-       ELSE {})
-    : e \in env }
+  UNION {{[s EXCEPT !.seen = o.seen, !.script = Append(@, e),
+                    !.steps = Append(@, [calls |-> o.calls, ret |-> cfg.F[e.c]])]
+            : o \in MemEval(cfg, e.c, s.seen)} : e \in env}
 
 MemHist(s) == [steps |-> s.steps]
 
+\* class of a projected argument tuple (0 = none of the case's classes)
+ClassOf(cfg, args) == LET S == {c \in DOMAIN cfg.A : cfg.A[c] = args} IN IF S = {} THEN 0 ELSE CHOOSE c \in S : TRUE
+\* classes f was invoked for in the calls cs
+InvokedIn(cfg, cs) == {ClassOf(cfg, cs[i].args) : i \in {x \in DOMAIN cs : cs[x].f = 1}}
 \* classes f has been invoked for in steps 1..j-1 of an observed history
-InvokedBefore(cfg, in, h, j) == {in.seq[i].c : i \in {x \in 1..(j-1) : h.steps[x].calls # <<>>}}
+InvokedBefore(cfg, in, h, j) == UNION {InvokedIn(cfg, h.steps[i].calls) : i \in 1..(j-1)}
+\* ... and before entry i of step j
+InvokedUpTo(cfg, in, h, j, i) == InvokedBefore(cfg, in, h, j) \cup InvokedIn(cfg, SubSeq(h.steps[j].calls, 1, i - 1))
 
 MemStepProps(cfg, in, h, j) ==
-  LET st == h.steps[j]
-      c  == in.seq[j].c
+  LET st  == h.steps[j]
+      c   == in.seq[j].c
+      cs  == st.calls
+      \* the class whose evaluation is requested right before entry i: the top-level class, or that of a nested call
+      req(i) == IF i = 1 THEN c ELSE IF cs[i-1].f = 2 THEN ClassOf(cfg, cs[i-1].args) ELSE 0
   IN {
-   <<"the memoized function returns something else than f for these arguments", st.ret = cfg.F[c]>>,
+   <<"the memoized function returns something else than f for these arguments",
+       st.ret = cfg.F[c] /\ \A i \in DOMAIN cs : cs[i].f = 2 =>
+           (ClassOf(cfg, cs[i].args) # 0 /\ cs[i].res = cfg.F[ClassOf(cfg, cs[i].args)])>>,
    <<"f is invoked more than once for Equal arguments",
-       Len(st.calls) <= 1 /\ (st.calls # <<>> => c \notin InvokedBefore(cfg, in, h, j))>>,
+       \A i \in DOMAIN cs : cs[i].f = 1 => ClassOf(cfg, cs[i].args) \notin InvokedUpTo(cfg, in, h, j, i)>>,
    <<"f is not invoked although no Equal arguments were evaluated before (the results cannot be f's)",
-       (cfg.r > 0 /\ c \notin InvokedBefore(cfg, in, h, j)) => st.calls # <<>> >>,
+       cfg.r > 0 =>
+         /\ c \notin InvokedBefore(cfg, in, h, j) => (cs # <<>> /\ cs[1].f = 1)
+         /\ \A i \in DOMAIN cs : (cs[i].f = 2 /\ ClassOf(cfg, cs[i].args) \notin InvokedUpTo(cfg, in, h, j, i))
+                                   => (i < Len(cs) /\ cs[i+1].f = 1)>>,
    <<"f is invoked with other arguments than the memoized function received",
-       \A i \in DOMAIN st.calls : st.calls[i].args = cfg.A[c]>> }
+       \A i \in DOMAIN cs : cs[i].f = 1 => (req(i) # 0 /\ cs[i].args = cfg.A[req(i)])>> }
 
+\* the instrumented f: returns F[class], and calls the memoized function on dep[class] right after it was entered
 MemBinding(cfg, in, h) ==
   /\ Len(h.steps) <= Len(in.seq)
-  /\ \A j \in DOMAIN h.steps : \A i \in DOMAIN h.steps[j].calls :
-        LET cl == h.steps[j].calls[i] IN
-        cl.f = 1 /\ cl.err = 0 /\ \A c \in DOMAIN cfg.A : cl.args = cfg.A[c] => cl.res = cfg.F[c]
+  /\ \A j \in DOMAIN h.steps :
+       LET cs == h.steps[j].calls IN
+       \A i \in DOMAIN cs :
+          /\ cs[i].f \in {1, 2} /\ cs[i].err = 0
+          /\ cs[i].f = 1 =>
+               LET k == ClassOf(cfg, cs[i].args) IN
+               k # 0 => /\ cs[i].res = cfg.F[k]
+                        /\ cfg.dep[k] # 0 => (i < Len(cs) /\ cs[i+1].f = 2 /\ cs[i+1].args = cfg.A[cfg.dep[k]])
+          /\ cs[i].f = 2 => (i > 1 /\ cs[i-1].f = 1)
 
 \* invariants of the machine itself
+AllCalls(s) == FlattenSeq([j \in DOMAIN s.steps |-> s.steps[j].calls])
 MemAtMostOnce(cfg, s) ==
-  \A c \in DOMAIN cfg.A :
-     Cardinality({j \in DOMAIN s.steps : s.steps[j].calls # <<>> /\ s.script[j].c = c}) <= 1
-MemObservationallyF(cfg, s) == \A j \in DOMAIN s.steps : s.steps[j].ret = cfg.F[s.script[j].c]
-MemSeenIsEvaluated(cfg, s) ==
-  s.seen = {s.script[j].c : j \in {x \in DOMAIN s.steps : s.steps[x].calls # <<>>}}
+  LET cs == AllCalls(s) IN
+  \A c \in DOMAIN cfg.A : Cardinality({i \in DOMAIN cs : cs[i].f = 1 /\ cs[i].args = cfg.A[c]}) <= 1
+MemObservationallyF(cfg, s) ==
+  /\ \A j \in DOMAIN s.steps : s.steps[j].ret = cfg.F[s.script[j].c]
+  /\ LET cs == AllCalls(s) IN \A i \in DOMAIN cs : cs[i].f = 2 => cs[i].res = cfg.F[ClassOf(cfg, cs[i].args)]
+MemSeenIsEvaluated(cfg, s) == s.seen = InvokedIn(cfg, AllCalls(s))
 
 -----------------------------------------------------------------------------
 (***************************************************************************)
